@@ -69,7 +69,8 @@ def store_oracle(ops, outs):
         elif ws[0] == "get":
             want = "nil" if ws[1] not in spec else ",".join(
                 f"{k}={v[0]}/{v[1]}" for k, v in sorted(spec[ws[1]].items()))
-            if out != want:
+            # a nil map and an empty map are the same presence set
+            if (out if out != "nil" else "") != (want if want != "nil" else ""):
                 bad.append((i, f"presence set `{out}` differs from the finite-map reference `{want}`"))
         elif ws[0] == "stats":
             m = spec.get(ws[1], {})
@@ -209,12 +210,25 @@ def run_protocol(ctx, binary, drv):
     def pline(quiet, labels):
         return f"prun quiet={int(quiet)} | " + " ".join(labels)
 
+    def fields(line):
+        return dict(w.split("=", 1) for w in line.split() if "=" in w)
+
+    def core(line):
+        """state part of a model line (its `trail=` is the expectation handed to the harness)"""
+        return line.partition(" trail=")[0]
+
+    def with_exp(op, model_line):
+        tr = fields(model_line).get("trail") if "trail=" in model_line else None
+        return op if tr is None else op + " ; exp=" + tr
+
     if ctx.replay:
         rp = json.load(open(ctx.replay))
         if rp.get("part") != "proto":
             return
-        run_ops = rp.get("ops", [])
-        expected = model(run_ops)
+        run_ops = [op.partition(";")[0].strip() for op in rp.get("ops", [])]
+        pm = model(run_ops)
+        run_ops = [with_exp(op, m) for op, m in zip(run_ops, pm)]
+        expected = [core(m) for m in pm]
     else:
         known_ops = [op for e in local_findings() for op in (e.get("replay") or {}).get("ops", [])]
         corpus = [l.strip() for l in open(os.path.join(VERIF, "props/C06/corpus_proto.ops"))
@@ -225,15 +239,18 @@ def run_protocol(ctx, binary, drv):
             ln = ctx.rng.choice([4, 8, 12, 18, 26, 40])
             gens.append(f"pgen quiet={int(quiet)} | " + " ".join(str(ctx.rng.randint(0, 9999)) for _ in range(ln)))
         gout = model(gens)
-        run_ops = known_ops + corpus
-        expected = model(run_ops)
+        plain = known_ops + corpus
+        pm = model(plain)
+        run_ops = [with_exp(op, m) for op, m in zip(plain, pm)]
+        expected = [core(m) for m in pm]
         for g, o in zip(gens, gout):
             if not o.startswith("labels="):
                 ctx.notes.append("driver pgen failed: " + o[:80])
                 continue
             labs, _, rest = o.partition(" ")
-            run_ops.append(pline("quiet=1" in g.split("|")[0], [l for l in labs[len("labels="):].split(",") if l]))
-            expected.append(rest)
+            run_ops.append(with_exp(pline("quiet=1" in g.split("|")[0],
+                                          [l for l in labs[len("labels="):].split(",") if l]), rest))
+            expected.append(core(rest))
     out = impl(run_ops)
     if ctx.last_go_crash:
         ctx.notes.append("proto harness process: " + str(ctx.last_go_crash)[-400:])
@@ -244,7 +261,11 @@ def run_protocol(ctx, binary, drv):
             harness_errors += 1
             ctx.count("proto:harness-error")
             continue
-        labels = op.partition("|")[2].split()
+        labels = op.partition("|")[2].partition(";")[0].split()
+        if "diverged" in fields(o):
+            # the harness stopped where the implementation left the model's path: the state it reports is the
+            # one reached by this prefix of the schedule (a schedule of the real code in its own right)
+            labels = labels[:int(fields(o)["diverged"]) + 1]
         quiet = "quiet=1" in op.partition("|")[0]
         ctx.record(op, nontrivial=len(set(l[0] for l in labels)) >= 2)
         ctx.count("proto:quiet" if quiet else "proto:free")
@@ -278,7 +299,10 @@ def run_protocol(ctx, binary, drv):
         sop = pline(quiet, cur)
         sout = impl([sop])
         if not sout or proto_oracle(sout[0]) != msg:
-            cur, sop, sout = labels, op, [o]
+            cur, sop = labels, pline(quiet, labels)
+            sout = impl([sop])
+            if not sout or proto_oracle(sout[0]) != msg:
+                sout = [o]
         sig = {"part": "proto", "violation": msg, "quiet": quiet, "tick": "T" in cur, "close": "C" in cur}
         ctx.violation("property", f"protocol: {msg} at a settled point: {sout[0]}", signature=sig,
                       replay={"part": "proto", "ops": [sop], "impl": sout, "original_op": op})
